@@ -79,6 +79,58 @@ Theorem C20_timed_refuted_early_timestamp :
 Proof. exact early_timestamp_refuted. Qed.
 Print Assumptions C20_timed_refuted_early_timestamp.
 
+(* ---- the wait path (tickit_term_input_wait_msec while nothing arrives).  The clause: a wait that
+   returns because the CALLER's time-out expired does not force a pending sequence -- tokenizer
+   state and deadline are untouched -- unless the sequence's own deadline has passed *)
+Theorem C20_wait_caller_timeout_keeps : forall m now ts d, t_deadline ts = Some d -> 0 <= m -> now + m * 1000 < d ->
+  twait false m now ts = Some (ts, now + m * 1000).
+Proof. exact twait_caller. Qed.
+Print Assumptions C20_wait_caller_timeout_keeps.
+
+(* ... and when that deadline is reached during the wait (the caller's time-out is longer, or
+   there is none) the time-out is forced: the property's condition no longer holds *)
+Theorem C20_wait_deadline_forces : forall m now ts d, t_deadline ts = Some d -> now < d -> (m = -1 \/ d <= now + m * 1000) ->
+  twait false m now ts = None.
+Proof. exact twait_deadline. Qed.
+Print Assumptions C20_wait_deadline_forces.
+
+(* fragments with waits of the caller in between, each group shorter than the wait time: the
+   events of the whole stream, however the caller slices its waits *)
+Theorem C20_wait_chunking : forall (tok : list Z -> tokres),
+  (forall b m k n, tok b = TKey k n -> tok (b ++ m) = TKey k n) ->
+  (forall b k n, tok b = TKey k n -> (0 < n <= length b)%nat) ->
+  forall cap : nat, (0 < cap)%nat ->
+  (forall b, tok b = TAgain -> (length b < cap)%nat) ->
+  (forall b, tok b = TNone -> b = []) ->
+  forall wait ht steps c ws now ts,
+  (forall c0 ws0, In (c0, ws0) ((c, ws) :: steps) -> Forall (fun m => 0 <= m) ws0 /\ zsum ws0 * 1000 < wait) ->
+  (length (i_buf (t_in ts)) < cap)%nat -> 0 <= ht ->
+  match push_bytes tok cap (t_in ts) (concat (map fst ((c, ws) :: steps))) with
+  | Some (evs, s') => exists d, wtimed_run tok cap wait false ht now ts ((c, ws) :: steps) = Some (evs, mkT s' d)
+  | None => wtimed_run tok cap wait false ht now ts ((c, ws) :: steps) = None
+  end.
+Proof. exact wait_chunking. Qed.
+Print Assumptions C20_wait_chunking.
+
+(* the pinned wait path forces a pending sequence whenever select times out *)
+Theorem C20_wait_refuted_caller_timeout_forces :
+  (forall m now ts d, t_deadline ts = Some d -> twait true m now ts = None) /\
+  wtimed_run esc_tok 256 50000 true 0 0 tst0 [([27], [10; 10; 10]); ([91; 65], [])] = None /\
+  wtimed_run esc_tok 256 50000 false 0 0 tst0 [([27], [10; 10; 10]); ([91; 65], [])] =
+    Some ([EvKey KEYEV_KEY 0 [85; 112]], mkT (mkI [] 0 false) None).
+Proof. exact (conj twait_pinned_forces wait_forces_refuted). Qed.
+Print Assumptions C20_wait_refuted_caller_timeout_forces.
+
+(* tickit_term_input_wait_tv hands on the timeval's milliseconds; pinned: 2 s become 2 ms *)
+Theorem C20_wait_tv_exact : forall sec usec, 0 <= usec < 1000000 ->
+  wait_tv_msec false sec usec * 1000 <= sec * 1000000 + usec < (wait_tv_msec false sec usec + 1) * 1000.
+Proof. exact wait_tv_exact. Qed.
+Print Assumptions C20_wait_tv_exact.
+
+Theorem C20_wait_tv_refuted : wait_tv_msec true 2 0 = 2 /\ wait_tv_msec false 2 0 = 2000.
+Proof. exact wait_tv_refuted. Qed.
+Print Assumptions C20_wait_tv_refuted.
+
 (* ... and those events are the translations, one after the other, of the keys the tokenizer
    finds in the buffer *)
 Theorem C20_events_of_keys : forall (tok : list Z -> tokres),
